@@ -225,21 +225,41 @@ func c19Jobs(r *vhlib.Run) []job {
 	// archives of the same SHAPE (stored chunks of equal sizes, an index flushed in the middle): their last
 	// index block and footer are byte for byte the same although the contents differ - whatever a Reader
 	// remembers about "the archive" beyond its own object must not be keyed by that
-	for k := 0; k < 4; k++ {
-		d := vhlib.RandBytes(rng, 900)
-		sink, plain, _ := makeXFStream(xwCfg{Level: 0, ChunkSize: 100, Index: -1}, []xwOp{{Kind: 'w', Data: d[:400]}, {Kind: 'f', Mode: 2}, {Kind: 'w', Data: d[400:]}, {Kind: 'c'}})
-		want := append([]byte{}, plain...)
-		jobs = append(jobs, job{"xflate.Reader(same-shape)", func() string {
-			xr, err := xflate.NewReader(bytes.NewReader(sink), nil)
-			if err != nil {
-				return "open-failed"
+	{
+		// searched for: how long an index block is depends on its content, so candidates with a random cut of
+		// the first segment are grouped by (length, last 64 bytes) until two groups hold two archives each
+		type cand struct{ sink, plain []byte }
+		groups := map[string][]cand{}
+		found := 0
+		tailData := vhlib.RandBytes(rng, 500) // the same last segment in every candidate
+		for tries := 0; tries < 600 && found < 2; tries++ {
+			d := append(vhlib.RandBytes(rng, 400), tailData...)
+			cut := 40 + rng.Intn(320)
+			sink, plain, ok := makeXFStream(xwCfg{Level: 0, ChunkSize: 1000, Index: -1}, []xwOp{{Kind: 'w', Data: d[:cut]}, {Kind: 'f', Mode: 1}, {Kind: 'w', Data: d[cut:400]}, {Kind: 'f', Mode: 1},
+				{Kind: 'f', Mode: 2}, {Kind: 'w', Data: d[400:]}, {Kind: 'c'}})
+			if !ok || len(sink) < 64 {
+				continue
 			}
-			out, rerr := readCap(xr)
-			if !bytes.Equal(out, want) {
-				return fmt.Sprintf("WRONG CONTENT %d/%d %v", len(out), len(want), rerr)
+			key := fmt.Sprint(len(sink), sink[len(sink)-64:])
+			groups[key] = append(groups[key], cand{sink, append([]byte{}, plain...)})
+			if len(groups[key]) == 2 {
+				found++
+				for _, c := range groups[key] {
+					c := c
+					jobs = append(jobs, job{"xflate.Reader(same-tail)", func() string {
+						xr, err := xflate.NewReader(bytes.NewReader(c.sink), nil)
+						if err != nil {
+							return "WRONG CONTENT open failed: " + err.Error()
+						}
+						out, rerr := readCap(xr)
+						if !bytes.Equal(out, c.plain) {
+							return fmt.Sprintf("WRONG CONTENT %d/%d %v", len(out), len(c.plain), rerr)
+						}
+						return sum(out, []byte(vhlib.ErrClass(rerr)))
+					}})
+				}
 			}
-			return sum(out, []byte(vhlib.ErrClass(rerr)))
-		}})
+		}
 	}
 	for k := 0; k < 3; k++ {
 		sink, _, _ := makeXFStream(xwCfg{Level: 6, ChunkSize: 64, Index: 4}, []xwOp{{Kind: 'w', Data: vhlib.RandBytes(rng, 3000)}, {Kind: 'c'}})
